@@ -14,7 +14,7 @@ CHECKS = {
  'C18': dict(
     technique="exhaustive enumeration of one scenario set executed under every enumerated storage configuration in separate processes; differential oracle against the shipped configuration",
     text="~2 100 (quick) / ~20 000 (thorough) scenarios (every single E1 operation, every C03 boundary request away from exact ties, every program of <= 2/3 steps with all tracking queries, every 21st/7th C05/C11/C12 specification) "
-         "under 7 / 18 configurations (mol..nmol x L..nL incl. unprefixed and unequal prefixes, internal precision 8 / 12): identical decisions, answers in user units equal within rounding (1.5 M numbers compared per quick run).",
+         "under 7 / 18 configurations (mol..nmol x L..nL incl. unprefixed and unequal prefixes, internal precision 8 / 12): identical decisions, answers in user units equal within rounding, observers with and without an explicit unit (3.2 M numbers compared per quick run).",
     note="Amounts near the resolution of the coarsest setting and requests exactly at a boundary are excluded; precision 8 is compared coarsely ('within rounding'). " + TRUST,
     ref="DESIGN.md section 4 C18"),
  'C19': dict(
@@ -26,7 +26,7 @@ CHECKS = {
  'C09': dict(
     technique="explicit-state exploration over recipe programs x stage layouts; oracle = independent per-step ledger built from prefix bakes (reference model), per-step accounting + stage arithmetic",
     text="Every successfully baking program of <= 3 steps (~11 800 per valuation; quick: one valuation) / <= 4 steps (~270 000, thorough: one valuation to depth 4, the other two to depth 3) x 8-12 stage layouts (incl. an open stage at bake, stages without steps, refused stage calls and refused premature bakes) x every substance x destination sets x timeframes x units: "
-         "~11 M get_substance_used answers per quick run compared with the ledger (gain of the destinations + discarded), net decrease => ValueError; the whole-recipe query also with the destinations as tuple, generator, iterator and dict view."+CFG_T,
+         "~11 M get_substance_used answers per quick run compared with the ledger (gain of the destinations + discarded), net decrease => ValueError; the whole-recipe query also with the destinations as tuple, generator, iterator and dict view, and with unit / timeframe / destinations left out."+CFG_T,
     note="Noise zone (|true net change| within a few storage resolutions) is don't-care between ValueError and 0; displayed precision. " + TRUST,
     ref="DESIGN.md section 4 C09"),
  'C15': dict(
@@ -42,19 +42,19 @@ CHECKS = {
     ref="DESIGN.md section 4 C07"),
  'C08': dict(
     technique="explicit-state exploration over recipe programs (BFS, state = bake of the prefix); oracle in inductive form bake(p.s) == eager_apply(bake(p), s)",
-    text="Every program of <= 3 (quick) / 4 (thorough) steps over a 30-action vocabulary (~10 000 / ~300 000 programs) is baked in a fresh Recipe and compared step-wise with the eager interpreter: outcome class, key set, every object; plus 'no effect before bake', the same program with a refused premature bake() after every step that leaves a declared object unused, and steps refused when added although the eager operation succeeds."+CFG,
+    text="Every program of <= 3 (quick) / 4 (thorough) steps over a 30-action vocabulary (~10 000 / ~300 000 programs) is baked in a fresh Recipe and compared step-wise with the eager interpreter: outcome class, key set, every object; plus 'no effect before bake', the same program with a refused premature bake() after every step that leaves a declared object unused, steps refused when added although the eager operation succeeds, and the same program with the outside objects declared through other forms of uses()."+CFG,
     note="Known finding (recipe fill_to on a slice) identified by an explicit model of its behaviour; extensions of failing prefixes are pruned. " + TRUST,
     ref="DESIGN.md section 4 C08"),
  'C05': dict(
     technique="exhaustive enumeration of the solution-specification grammar; feasibility classified by an exact rational linear solve; results judged by definition against the reference model",
     text="~17 000 specifications per valuation (6 solute lists x 5 solvents incl. 3 containers x 4 feasibility levels x which-two-of-three x every concentration spelling / quantity / total unit, "
-         "+ broadcast, inconsistent and wrong-kind families): key set, positivity, every stated concentration / quantity / total, uniform solvent aliquot and conservation, accept/refuse decision."+CFG,
+         "+ broadcast, inconsistent and wrong-kind families): key set, positivity, every stated concentration / quantity / total, uniform solvent aliquot and conservation, accept/refuse decision, identity of the returned vessels; an argument-shape family (one value per solute, two of three keywords); every accepted request also as a recipe step."+CFG,
     note="Values come from three valuations and four feasibility levels; don't-care near boundaries, for singular specs, and where the solvent container already holds the solute. " + TRUST,
     ref="DESIGN.md section 4 C05"),
  'C11': dict(
     technique="exhaustive enumeration of dilute/fill_to specifications derived from the current state by the reference model; results judged by definition",
     text="7 mixture classes x solute x solvent (present/other) x 17 concentration spellings x 6 target factors x 4 capacity classes for dilute; 10 unit spellings x 4 factors x capacities x 3 solvent kinds for fill_to: "
-         "only the solvent increases, target met, capacity respected, refusal above the current concentration / below the current quantity; every request with an unlimited or just-too-small vessel also as a recipe step (same outcome and container as the direct call)."+CFG,
+         "only the solvent increases, target met, capacity respected, refusal above the current concentration / below the current quantity; every request with an unlimited or just-too-small vessel also as a recipe step (same outcome and container as the direct call); every accepted dilution also under a new name."+CFG,
     note="Factor 1 and a vessel whose capacity equals the result volume exactly are don't-care. " + TRUST,
     ref="DESIGN.md section 4 C11"),
  'C12': dict(
@@ -64,7 +64,7 @@ CHECKS = {
     ref="DESIGN.md section 4 C12"),
  'C17': dict(
     technique="exhaustive enumeration of mixtures x selectors x object forms, direct and as recipe step, against the reference model and a ledger of removed amounts",
-    text="All 31 non-empty mixtures of 5 substances x 9 selectors, plus 66 mixtures that hold a substance next to a twin (another substance carrying its name) x 12 selectors, x {container, whole plate, 12 slice geometries, 3 sub-slices} x {direct, recipe}: exact contents (keyed by what a substance is, not by Substance.__eq__), volume, frame, and the link to get_substance_used / get_container_flows."+CFG,
+    text="All 31 non-empty mixtures of 5 substances x 9 selectors, plus 66 mixtures that hold a substance next to a twin (another substance carrying its name) x 12 selectors, x {container, whole plate, 12 slice geometries, 3 sub-slices} x {direct, recipe}, plus two plates without any liquid: exact contents (keyed by what a substance is, not by Substance.__eq__), volume, frame, and the link to get_substance_used / get_container_flows."+CFG,
     note=TRUST,
     ref="DESIGN.md section 4 C17"),
  'C06': dict(
@@ -89,7 +89,7 @@ CHECKS = {
     technique="explicit-state exploration of the implementation: BFS over operation histories with canonical-state hashing; invariant (conservation + frame) on every transition",
     text="Every transfer reachable by the bounded exhaustive enumeration (all ordered pairs of source/destination forms incl. same-plate "
          "regions x 4 units from 3 base states, every unit spelling x size x pairing form, and all histories of <= 3/4 operations over a "
-         "48-action alphabet, plus a world of vessels holding substances that share a name, 44 actions to depth 2/3) is executed on the real API; totals per substance identity (name, kind, parameters; never through Substance.__eq__) over the whole world and bit-identity of untouched wells are checked on each."+CFG,
+         "48-action alphabet, plus a world of vessels holding substances that share a name, 44 actions to depth 2/3) is executed on the real API; totals per substance identity (name, kind, parameters; never through Substance.__eq__) over the whole world and bit-identity of untouched wells are checked on each; the geometry sweep also with every transfer made twice through the same slice objects."+CFG,
     note="Bounded depth and data tables (3 valuations); tolerance 1e-9 storage units per written well. " + TRUST,
     ref="DESIGN.md section 4 C01"),
  'C02': dict(
@@ -107,7 +107,7 @@ CHECKS = {
  'C04': dict(
     technique="explicit-state exploration with structural fingerprints of every argument and every earlier result before/after each call (returned or raised)",
     text="Along every history of the full menu incl. failing calls, every argument and every object produced earlier is re-fingerprinted after each call; "
-         "all (18 slice geometries x 7 x 7 operation pairs) with one slice object held across both calls; every action as recipe (declare, add, bake, re-use results); every list handed to a call (solutes, concentrations, quantities, initial contents) compared with its value before."+CFG,
+         "all (18 slice geometries x 7 x 7 operation pairs) with one slice object held across both calls; every action as recipe (declare, add, bake, re-use results); every list handed to a call (solutes, concentrations, quantities, initial contents) compared with its value before; held slices also as source / destination of plate-to-plate transfers."+CFG,
     note="Fingerprints cover name, exact contents, volume, capacity, instructions, every well, labels, slice bindings, substance attributes. " + TRUST,
     ref="DESIGN.md section 4 C04"),
  'C10': dict(
